@@ -95,6 +95,27 @@ class NP:
             return np_max2(a, b)
         return _np.maximum(a, b)
 
+    def fmax(self, a, b):
+        """numpy.fmax: the maximum ignoring NaN (NaN only if both are NaN)."""
+        def f2(x, y):
+            x, y = SF.lift(x), SF.lift(y)
+            return ite(x.nan, y, ite(y.nan, x, np_max2(x, y)))
+        if isinstance(a, vecs.SV) or isinstance(b, vecs.SV):
+            return vecs.zipmap(f2, a, b)
+        if _sym(a) or _sym(b):
+            return f2(a, b)
+        return _np.fmax(a, b)
+
+    def fmin(self, a, b):
+        def f2(x, y):
+            x, y = SF.lift(x), SF.lift(y)
+            return ite(x.nan, y, ite(y.nan, x, np_min2(x, y)))
+        if isinstance(a, vecs.SV) or isinstance(b, vecs.SV):
+            return vecs.zipmap(f2, a, b)
+        if _sym(a) or _sym(b):
+            return f2(a, b)
+        return _np.fmin(a, b)
+
     def minimum(self, a, b):
         if isinstance(a, vecs.SV) or isinstance(b, vecs.SV):
             return vecs.zipmap(np_min2, a, b)
